@@ -29,9 +29,14 @@ def probe_file(b):
              b.for_(b.var_stmt(u(), 'i', n(0)), b.bin('Less', v('i'), b.member(v('arr'), 'length')), b.expr_stmt(b.un('PreIncrement', v('i'))), b.block([])),
              b.expr_stmt(b.bin('Multiply', b.bin('Divide', v('q'), n(2)), n(3))),
              b.block([b.expr_stmt(b.un('PreIncrement', v('q'))), b.expr_stmt(b.un('PreDecrement', v('beta')))], unchecked=True),
-             b.expr_stmt(b.un('PreIncrement', v('q')))]
+             b.expr_stmt(b.un('PreIncrement', v('q'))),
+             # second occurrences of the multi-token vulnerability patterns (a finding after one that spans several lines in some layouts)
+             b.expr_stmt(b.bin('Multiply', b.bin('Divide', v('q'), n(4)), n(5))),
+             b.expr_stmt(b.call(b.member(b.call(v('IERC20'), [v('t')]), 'approve'), [v('t'), n(2)]))]
     parts = [b.state_var(u(), 'alpha'), b.state_var(u(), 'beta'), b.state_var(b.ty('Uint', 8), 'gamma', [b.vattr('visibility', 'private')]),
              b.state_var(u(), 'delta', [b.vattr('constant'), b.vattr('visibility', 'public')], n(5)), b.state_var(b.ty('Address'), 'owner'),
+             b.state_var(b.ty('Address'), 'factory', [b.vattr('immutable')]), b.state_var(b.ty('Bool'), 'flagA', [b.vattr('visibility', 'private')]),
+             b.state_var(b.ty('Uint', 64), '_pub', [b.vattr('visibility', 'public')]), b.state_var(b.ty('Uint', 32), 'hidden', [b.vattr('visibility', 'internal')]),
              b.function('Function', 'work', [b.param(b.index(u()), 'Memory', 'arr'), b.param(u(), None, 'q'), b.param(b.ty('Address'), None, 't')],
                         [b.fattr('visibility', 'public')], b.block(body1)),
              b.function('Function', 'helper', [], [b.fattr('visibility', 'internal')], b.block([b.expr_stmt(b.call(v('selfdestruct'), [v('owner')]))])),
@@ -71,6 +76,7 @@ def purity(chk, cat, dets=None):
     for d in (dets or PROBE_DETECTORS[cat]):
         pat = Adt(enum, name_to_variant[d])
         e.flags['symbolic_order'] = True
+        e.flags['perm_full'], e.flags['perm_budget'] = 4, 7       # every order up to 4 elements; at most 7 order decisions per path
         try:
             paths = e.explore(lambda en: en.call_mir(fn, [Str(text), file_no, pat]), max_paths=5000)
         except Unsupported as u:
@@ -419,7 +425,7 @@ def dir_model(chk, cat):
 
 
 def body(chk):
-    chk.bounds = {'purity': 'analyze_for_* executed from MIR on a probe file with symbolic file number and ARBITRARY iteration order of every HashSet/HashMap; %d detectors' % sum(len(v) for v in PROBE_DETECTORS.values()),
+    chk.bounds = {'purity': 'analyze_for_* executed from MIR on a probe file with symbolic file number and ARBITRARY iteration order of every HashSet/HashMap (all orders of up to 4 elements; larger collections: next element = first or last of the rest; at most 7 order decisions per path, then as given); %d detectors' % sum(len(v) for v in PROBE_DETECTORS.values()),
                   'directory model': 'one file with / without siblings and sub-directories, every listing order, both orders of two patterns',
                   'native sequences': '3 files x 17 detectors x 4 call sequences in one process (an equal-length file analysed just before / interleaved, reversed and repeated patterns, other category first) + stress predecessors analysed first on a 2 GiB stack (600 statements inside blocks nested 600 deep, an expression nested 1200 deep, an unparsable file; thorough: nested 3000 deep, 700 call arguments nested 550 deep, 2000 functions); directory with equal-length siblings',
                   'outside': 'concurrent calls from several threads (neither engine models threads); state inside the regex crate'}
